@@ -574,14 +574,15 @@ func Queue[V any](arguments ...any) col.QueueLike[V] {
 	case sequence != nil:
 		queue = class.MakeFromSequence(sequence)
 	case len(source) > 0:
-		queue = class.Make()
 		var collection = notation.ParseSource(source).(col.Sequential[any])
 		// Convert the values to their real type.
+		var list = col.List[V](notation).Make()
 		var iterator = collection.GetIterator()
 		for iterator.HasNext() {
 			var value = iterator.GetNext().(V)
-			queue.AddValue(value)
+			list.AppendValue(value)
 		}
+		queue = class.MakeFromSequence(list)
 	default:
 		queue = class.Make()
 	}
